@@ -218,7 +218,7 @@ func c16One(res *vlib.Result, si, enc, integ, ci, vc, life, ver, dir, tag int) {
 func c16Corrupt(res *vlib.Result, pos int) {
 	res.Evals++
 	res.Nontrivial++
-	M, I := security.NewSessionCache(), security.NewSessionCache()
+	M := security.NewSessionCache()
 	mc, err := security.MintClaimSession(M, security.MintClaimOptions{Sinful: c16Sinfuls[2], Birthdate: 1, SequenceNum: 2})
 	if err != nil {
 		res.Violate("C16/mint-error", "%v", err)
@@ -231,12 +231,26 @@ func c16Corrupt(res *vlib.Result, pos int) {
 		return
 	}
 	off := len(claim) - len(secret) + pos
-	b := []byte(claim)
-	if b[off] == '0' {
-		b[off] = '1'
-	} else {
-		b[off] = '0'
+	orig := claim[off]
+	// substitutes: another digit, the same letter in the other case, the next character, a
+	// non-hex letter, a hex letter in upper case, a blank
+	subs := []byte{'0', '1', orig ^ 0x20, orig + 1, 'z', 'F', 'a', ' '}
+	seen := map[byte]bool{orig: true}
+	for _, sub := range subs {
+		if seen[sub] || (sub == orig^0x20 && !(orig|0x20 >= 'a' && orig|0x20 <= 'z')) {
+			continue
+		}
+		seen[sub] = true
+		c16CorruptOne(res, M, claim, off, sub, pos)
 	}
+	res.Outcome("corrupt-secret-rejected")
+}
+
+func c16CorruptOne(res *vlib.Result, M *security.SessionCache, claim string, off int, sub byte, pos int) {
+	I := security.NewSessionCache()
+	b := []byte(claim)
+	b[off] = sub
+	res.Transitions++
 	sid, err := security.ImportClaimSession(I, string(b), security.ClaimSessionOptions{PeerAddr: c16Sinfuls[2]})
 	if err != nil {
 		res.Outcome("corrupt-import-rejected")
@@ -253,10 +267,9 @@ func c16Corrupt(res *vlib.Result, pos int) {
 		}
 		r := hsRun(hsOpts{ClientCfg: cc, ServerCfg: sc, App: true})
 		if len(r.S.AppGot) > 0 || len(r.C.AppGot) > 0 {
-			res.Violate("C16/wrong-secret-accepted", "secret character %d altered, direction %d: application message accepted", pos, dir)
+			res.Violate("C16/wrong-secret-accepted", "secret character %d (%q) replaced by %q, direction %d: application message accepted", pos, claim[off], sub, dir)
 		}
 	}
-	res.Outcome("corrupt-secret-rejected")
 }
 
 // c16History: a sequence of imports into ONE importer cache (the importer's
@@ -342,14 +355,11 @@ func c16History(res *vlib.Result, hist []string) {
 func C16Plan() *vlib.Plan {
 	p := &vlib.Plan{
 		Property: "C16", Level: "exploration",
-		Rule:   "E-ENUM full product: sinful in {plain, with params, with sock=, with embedded '#', bracketed IPv6} x Encryption/Integrity in {unset, true, false}^2 x cipher list in {'', AES, AESGCM, 'AES,BLOWFISH', 'AES,3DES,BLOWFISH'} x ValidCommands in {none, [443], [443,444]} x lifetime in {0, 60 s, 20 years, 100 years (expiry beyond 2^31-1 s)} x version in {'', long, short} x direction (importer dials / minter dials) x tag; each pair: cache entries compared (id, key, Encryption/Integrity/cipher/commands, expiry), public form searched for the secret, policy text render/parse fixed point, then a real resumption handshake (no negotiation on the wire) with ping/pong both ways, by session id and - when the claim lists commands - by command (the dialer's cache must route tag, peer address and command to the claim session). Plus every single-character alteration of the secret in both directions, and every history of <= 3 (thorough 4) imports into ONE importer cache over {intact id, id with the first / last secret character altered, intact id of a second claim}: whenever the last import of the claim is the intact id, key and expiry must equal the minter's and resumption must work both ways. Plus the library client (client.ConnectAndAuthenticateWithConfig) over loopback sockets: 8 address templates x {direct, scripted shared_port front end} x direction x tag, by command: the claim session is resumed with ping/pong. Non-trivial = mint succeeded; ids distinct by construction.",
+		Rule:   "E-ENUM full product: sinful in {plain, with params, with sock=, with embedded '#', bracketed IPv6} x Encryption/Integrity in {unset, true, false}^2 x cipher list in {'', AES, AESGCM, 'AES,BLOWFISH', 'AES,3DES,BLOWFISH'} x ValidCommands in {none, [443], [443,444]} x lifetime in {0, 60 s, 20 years, 100 years (expiry beyond 2^31-1 s)} x version in {'', long, short} x direction (importer dials / minter dials) x tag; each pair: cache entries compared (id, key, Encryption/Integrity/cipher/commands, expiry), public form searched for the secret, policy text render/parse fixed point, then a real resumption handshake (no negotiation on the wire) with ping/pong both ways, by session id and - when the claim lists commands - by command (the dialer's cache must route tag, peer address and command to the claim session). Plus, for every position of the secret, its replacement by up to 7 substitutes (another digit, the same letter in the other case, the next character, a non-hex letter, an upper-case hex letter, a blank) in both directions, and every history of <= 3 (thorough 4) imports into ONE importer cache over {intact id, id with the first / last secret character altered, intact id of a second claim}: whenever the last import of the claim is the intact id, key and expiry must equal the minter's and resumption must work both ways. Plus the library client (client.ConnectAndAuthenticateWithConfig) over loopback sockets: 8 address templates x {direct, scripted shared_port front end} x direction x tag, by command: the claim session is resumed with ping/pong. Non-trivial = mint succeeded; ids distinct by construction.",
 		Assume: []string{"peer caches are private per case (no process-global state involved)"},
 	}
 	p.Gen = func(tier string, yield func(vlib.Case)) {
-		nCorrupt := 8
-		if tier == "thorough" {
-			nCorrupt = 64
-		}
+		nCorrupt := 64
 		p.Bounds = map[string]any{"secret_positions": nCorrupt}
 		for si := range c16Sinfuls {
 			for ci := range c16Ciphers {
@@ -420,14 +430,15 @@ func C16Plan() *vlib.Plan {
 			}
 		}
 		rec(nil)
-		for pos := 0; pos < nCorrupt; pos++ {
-			pos := pos
-			yield(vlib.Case{ID: fmt.Sprintf("corrupt-secret@%d", pos), Run: func() *vlib.Result {
-				res := &vlib.Result{}
+		// one case over all positions: the secret is random per mint, so which positions hold a
+		// letter (and have an other-case twin) differs from run to run; the set of keys does not
+		yield(vlib.Case{ID: "corrupt-secret/all-positions", Run: func() *vlib.Result {
+			res := &vlib.Result{}
+			for pos := 0; pos < nCorrupt; pos++ {
 				c16Corrupt(res, pos)
-				return res
-			}})
-		}
+			}
+			return res
+		}})
 	}
 	return p
 }
